@@ -200,6 +200,16 @@ def _capture_two(env):
     env["got"]["cap"] = cap.get()
 
 
+def _buffered_capture(env):
+    """a capture entered inside a `with console:` block that has already buffered a print"""
+    c = env["c"]
+    with c:
+        c.print("b0b0")
+        with c.capture() as cap:
+            c.print("BBBB")
+        env["got"]["capB"] = cap.get()
+
+
 def _export_mid(env):
     env["got"]["export_mid"] = env["c"].export_text(clear=False)
 
@@ -215,6 +225,8 @@ OPS = {
     "printP": lambda e: e["c"].print("PPPP"),
     "printQ": lambda e: e["c"].print("QQQQ"),
     "logA": lambda e: e["c"].log("AAAA"),
+    "logB": lambda e: e["c"].log("BBBB"),
+    "bufcapB": _buffered_capture,
     "capture2": _capture_two,
     "export_mid": _export_mid,
     "upd_same": lambda e: e["live"].update("G1", refresh=True),
@@ -237,7 +249,7 @@ OPS["printA_c"] = _catching("printA", OSError)
 OPS["printB_c"] = _catching("printB", OSError)
 OPS["printP_c"] = _catching("printP", OSError)
 # the text each print-like op must deliver exactly once (as it appears in the file)
-MARKS = {"printA": ["AAAA aaaa"], "printB": ["BBBB", "bbbb"], "printP": ["PPPP"], "printQ": ["QQQQ"], "logA": ["AAAA"],
+MARKS = {"printA": ["AAAA aaaa"], "printB": ["BBBB", "bbbb"], "printP": ["PPPP"], "printQ": ["QQQQ"], "logA": ["AAAA"], "logB": ["BBBB"],
          "printA_c": ["AAAA aaaa"], "printB_c": ["BBBB", "bbbb"], "printP_c": ["PPPP"]}
 
 HARNESSES = {
@@ -273,6 +285,12 @@ HARNESSES = {
     "H20": (_b_flush_fault, {"A": ["printA_c", "printP_c"], "B": ["printB_c"]}, "plain", 0),
     # four threads on one recording console (the statement's upper thread count), lock-level interleavings
     "H17": (_b_plain(True), {"A": ["printA"], "B": ["printB"], "X": ["printP"], "Y": ["printQ"]}, "plain", 0),
+    # a refresh against stop(): after stop() has drawn the last frame nothing may draw it again
+    "H21": (_b_live("F1"), {"A": ["refresh"], "B": ["stop"]}, "live", 0),
+    # two log() calls (they share the console's LogRender object)
+    "H22": (_b_plain(True), {"A": ["logA"], "B": ["logB"]}, "plain", 0),
+    # a capture against a capture entered inside a `with console:` block whose buffer is not empty
+    "H23": (_b_plain(False), {"A": ["captureA"], "B": ["bufcapB"]}, "capture2b", 0),
     "H16": (_b_two_consoles, {"A": ["print_table_c1"], "B": ["print_table_c2"]}, "plain", 0),
 }
 
@@ -414,6 +432,14 @@ def _judge(hid, s, obs):
                 v.append(("%s/capture-content" % hid, "%s captured %r expected %r" % (tag, got, want)))
         if file_text:
             v.append(("%s/captured-text-reached-file" % hid, repr(file_text)))
+    if kind == "capture2b":
+        for tag in ("capA", "capB"):
+            got = obs["got"].get(tag)
+            want = seq[0]["got"].get(tag)
+            if got != want:
+                v.append(("%s/capture-content" % hid, "%s captured %r; alone it captures %r" % (tag, got, want)))
+        if "AAAA" in file_text or "BBBB" in file_text:
+            v.append(("%s/captured-text-reached-file" % hid, repr(file_text)))
     if kind == "fault-live":
         # exactly one thread sees the injected exception; both prints that did not raise are on the screen; no hang
         caught = obs["got"].get("caught", [])
@@ -437,7 +463,7 @@ def _judge(hid, s, obs):
                 v.append(("%s/export-not-a-prefix-of-file-order" % hid, "export %r writes %r" % (mid, writes)))
     # (5) plain consoles: the file is one of the sequential files
     sym = "ok"
-    if kind in ("plain", "capture", "capture2"):
+    if kind in ("plain", "capture", "capture2", "capture2b"):
         if file_text not in {"".join(t for _, t in so["writes"]) for so in seq}:
             sym = "file-not-sequential"
             v.append(("%s/file-differs-from-every-sequential-order" % hid, repr(file_text)))
